@@ -18,6 +18,39 @@ CLAIMS = {
         design='§6 C18'),
 }
 
+CLAIMS.update({
+    'C02': dict(
+        text='Lean 4 theorems for an arbitrary assignment dp of derived-property values (any user-supplied class) and every label: allows = Ok iff every position is acceptable (valid, or contextual with its registered rule satisfied there); rejection is the error of the FIRST offending position with its code point, code-point index and property; every error has that shape. Tied to the code by running the real default method on a harness-defined StringClass under hundreds of assignments and on both standard classes, compared with the model and with an independent specification (RFC 5892 conditions + IANA registry).',
+        note='Trusted: Lean kernel; hand-written model of allows/allowed_by_context_rule (validated by correspondence); rule semantics are C03, registry facts are C14/C03.',
+        technique='Lean 4 proof by induction over the label with an explicit position counter + differential correspondence with a custom StringClass',
+        design='§6 C02'),
+    'C09': dict(
+        text='Lean 4 theorems: the generated Bidi_Class table (searched by the modelled binary search, default L) equals UnicodeData 16.0.0 for every code point (kernel-checked step-function comparison with an independent parse); the one-pass scan with prev/nsm/en/an flags accepts EXACTLY the class sequences that satisfy RFC 5893 conditions 1-6 and have no NSM followed by a non-NSM (scan_exact, all lengths); labels without R/AL/AN are accepted unchanged; the string is never modified; the rule is sound w.r.t. the RFC. The full-strength statement is false of the code (known finding bidi-interior-nsm, exactly characterised; witness proved in Lean). Correspondence: all class sequences up to length 4 (thorough 5) over 12 classes, every class in 7 placements, bidi_class over all code points.',
+        note='Trusted: Lean kernel; RFC 5893 transcription; tools/ucd_spec.py; model of bidi.rs validated by exhaustive small-scope correspondence. Known finding: interior NSM rejected (unit tests of the repository assert it).',
+        technique='Lean 4 proof (automaton invariant by induction over the suffix; kernel-checked table equality) + exhaustive class-sequence correspondence',
+        design='§6 C09'),
+    'C10': dict(
+        text='Lean 4 theorems: case_mapping_rule s = s.flatMap lowerFull for every string (so the result for a character never depends on its neighbours); the fast-path trigger is complete; is_lowercase implies the lowercase mapping is the identity (kernel-checked over the dumped std tables for every code point). Correspondence: std case functions over all scalars, every mapped code point (about 1450) in 11 neighbour contexts, all strings <= 3 (thorough 5) over class representatives.',
+        note='Trusted: Lean kernel; the std case tables are external data dumped from the running toolchain on every run; model of common.rs validated by correspondence.',
+        technique='Lean 4 proof (find/slice lemmas over UTF-8 byte offsets + kernel-checked table facts) + differential correspondence',
+        design='§6 C10'),
+    'C11': dict(
+        text='Lean 4 theorems: the generated width table equals the <wide>/<narrow> decomposition data of UnicodeData 16.0.0 for every code point (kernel-checked against an independent parse); width_mapping_rule s = s.map widthMap for every string (per character, position independent, other compatibility characters untouched); idempotent; every table value is a scalar so the typed error is unreachable; no panic. Correspondence: get_decomposition_mapping over all code points, every mapped code point in 18 contexts, all strings <= 3 (thorough 5) over representatives.',
+        note='Trusted: Lean kernel; tools/ucd_spec.py; model of usernames.rs::width_mapping_rule validated by correspondence.',
+        technique='Lean 4 proof (find/slice lemmas + kernel-checked table equality) + differential correspondence',
+        design='§6 C11'),
+    'C12': dict(
+        text='Lean 4 theorems: the generated Zs table is General_Category=Zs of Unicode 16.0.0 for every code point; Nickname trim_spaces s = collapse(strip(map Zs->U+0020 s)) for EVERY string (the byte offset returned by the scan is always a character boundary, so no panic); non-space characters are kept in order; the result has no leading/trailing/double/non-ASCII space; idempotent; OpaqueString mapping = map(non-ASCII Zs -> U+0020), preserves everything else, idempotent. Correspondence: all strings <= 5 (thorough 6) over {4 spaces} x {1-4 byte characters} for both rules and find_disallowed_space, all 17 Zs in 9 placements.',
+        note='Trusted: Lean kernel; tools/ucd_spec.py; model of nicknames.rs/passwords.rs validated by exhaustive small-scope correspondence.',
+        technique='Lean 4 proof (scan invariant over byte offsets, reference single-pass function, induction) + exhaustive small-scope correspondence',
+        design='§6 C12'),
+    'C14': dict(
+        text='Lean 4 theorems for every cp : Nat (so all 2^32 u32 values): both classes return exactly what the IANA precis-tables-6.3.0 registry lists; the model decision list equals the RFC 8264 section 8 list in its fixed order over independently parsed Unicode 6.3.0 data; Identifier disallows exactly what Freeform class-validates and they agree elsewhere; surrogates and values above U+10FFFF are DISALLOWED. Proved by kernel evaluation of step-function merges over the 34 regenerated tables (re-checked whenever the tables change) plus a rewriting proof that the model function is that step function (via the verified binary search). Correspondence: both entry points of both classes and 13 predicates at every code point 0..0x1100FF + boundary samples (thorough: all 2^32).',
+        note='Trusted: Lean kernel; tools/translate.py; tools/ucd_spec.py; transcription of RFC 8264 sections 8-9; HasCompat graph is data dumped from the implementation (external crate) and cross-checked against the NFKC model.',
+        technique='Lean 4 proof by kernel reflection on step functions (decide +kernel) + exhaustive per-code-point correspondence',
+        design='§6 C14, §5'),
+})
+
 NOT_YET = {}
 
 
